@@ -136,4 +136,7 @@ impl Sys for TwinSys {
     fn dead(&self) -> bool {
         self.a.run.dead || self.b.run.dead
     }
+    fn spec_key(&self) -> u64 {
+        Sys::spec_key(&self.a)
+    }
 }
